@@ -1,6 +1,7 @@
 import Driver.OpsSteps
 import Driver.OpsValidate
 import Driver.OpsEngine
+import Driver.OpsFs
 
 open Lean Df.Codec
 
@@ -11,6 +12,11 @@ def ops : List (String × (Json → R Json)) :=
    ("dispatch", Df.Ops.opDispatch),
    ("fault", Df.Ops.opFault),
    ("linearize", Df.Ops.opLinearize),
+   ("streamfx", Df.Ops.opStreamFx),
+   ("dumpfx", Df.Ops.opDumpFx),
+   ("hist", Df.Ops.opHist),
+   ("plan", Df.Ops.opPlan),
+   ("ejson", Df.Ops.opEjson),
    ("ping", fun j => do return Json.mkObj [("ok", encPkg (← decPkg (← j.getObjVal? "pkg")))])]
 
 def handle (line : String) : String :=
